@@ -89,6 +89,8 @@ impl Default for ContextMode {
 #[derive(Clone, Default, Debug)]
 struct Context {
     ds_len: usize,
+    // height of the data stack when the context was opened
+    ds_open: usize,
     cs_len: usize,
     rs_len: usize,
     fs_len: usize,
@@ -590,6 +592,7 @@ impl State {
     fn context_open(&mut self, mode: ContextMode) -> Xresult {
         let mut tmp = Context {
             ds_len: 0,
+            ds_open: self.data_stack.len(),
             cs_len: self.code.len(),
             rs_len: self.return_stack.len(),
             fs_len: self.flow_stack.len(),
@@ -670,8 +673,10 @@ impl State {
                 _ => true,
             };
             if prev.mode != ContextMode::MetaEval || is_assembling {
-                // emit meta-evaluation result
-                while self.data_stack.len() > self.ctx.ds_len {
+                // emit meta-evaluation result: what the block itself left, not what a
+                // block around it had on the stack it shares
+                let base = self.ctx.ds_len.max(self.ctx.ds_open);
+                while self.data_stack.len() > base {
                     let val = self.pop_data()?;
                     self.code_emit_value(val)?;
                 }
